@@ -90,7 +90,7 @@ META = dict(
         "spec/wasm_float.h transcription of WebAssembly 1.0 section 4.3.3 (integer-only definitions for comparisons, min/max, sign ops, truncation and its trap boundaries)",
         "libm functions ceil/floor/trunc/nearbyint/sqrt/fabs/copysign (+f) conform to C99 Annex F (only the opcode->function mapping and bit-exact argument/result passing are proved)",
     ],
-    assumptions=["C compilers translate well-defined C correctly, evaluate float expressions at their declared width (FLT_EVAL_METHOD 0) and in round-to-nearest mode",
+    assumptions=["E/S emitter contracts: array.c's growth step enters through the contract stub of harness/e_expr.c (discharged on the real array.c by job A.ensure_capacity.4, realloc/calloc being CBMC's library models); stack heights <= 2^24, label stacks <= 2^16; the string builder is the ghost recorder (its real implementation is under contract in C10); operand-stack entries hold valid value types (validated module)", "C compilers translate well-defined C correctly, evaluate float expressions at their declared width (FLT_EVAL_METHOD 0) and in round-to-nearest mode",
                  "program shapes: one probe per float opcode in 3 stack contexts; all operand bit patterns symbolic"],
     explanation="R: contracts on FMIN/FMAX, the 16 TRUNC macros and the reinterpret helpers of the real w2c2_base.h for all bit patterns. "
                 "G: every float opcode translated by the freshly built w2c2 and verified against the spec.",
